@@ -78,7 +78,7 @@ class B:
             if "C01" not in skip and self.transform == "identity":
                 M1 = ghost.run_machine(self.M0, e.log)
                 kf = known.get("C01"); k = kf(e) if callable(kf) else kf
-                ctx.check(f"C01 machine==builder position/mode [{tag}]", ghost.agree(M1, o1["_current_axes"], o1["_distance_mode"].idx, self.rel_idx), e, ["C01", "C03"], "inv", k)      # C03's target clause is stated relative to this agreement
+                ctx.check(f"C01 machine==builder position/mode [{tag}]", ghost.agree(M1, o1["_current_axes"], o1["_distance_mode"].idx, self.rel_idx), e, ["C01", "C03", "C11"], "inv", k)      # C11 compares MACHINE positions; C03's target clause is stated relative to this agreement
             if "C04" not in skip and self.transform != "identity":
                 M1 = ghost.run_machine(self.M0, e.log)
                 tr = self.h0[self.info["transformer"].oid]
